@@ -135,14 +135,14 @@ func (m *metadataStore) Close() error {
 		return fmt.Errorf("service not running")
 	}
 
-	if err := m.subscriber.Unsubscribe(m.chID); err != nil {
-		return err
-	}
+	// a failing Unsubscribe must not leave the Start loop running: the store
+	// stops either way and the error is reported to the caller
+	err := m.subscriber.Unsubscribe(m.chID)
 
 	m.stopCh <- struct{}{}
 	m.running.Store(false)
 
-	return nil
+	return err
 }
 
 func (m *metadataStore) addLogRecoveryProposal(proposals ...commontypes.CoordinatedBlockProposal) {
